@@ -8,8 +8,9 @@ Import ListNotations.
     (tlx::CountingPtrNoDelete<T>); every theorem holds for every such assignment, i.e. for any mixture of default and
     no-delete handles, also on the same object.  [dcount] = calls of [delete ptr]; [orph] = calls of the no-operation
     Deleter (object left alive without owner).  For every number [n] of handle variables and every history [ops] of constructing (default,
-    nullptr, from a raw pointer, fresh object), copying, moving, converting, assigning (including self- and
-    alias-assignment), swapping, resetting, unifying and destroying handles, for every object [o] ever created:
+    nullptr, from a raw pointer - of a handle or of any object still alive, so also adopted twice or re-adopted after a
+    no-delete handle let go last -, fresh object), copying, moving, converting, assigning (including self- and
+    alias-assignment, [= nullptr], and assignment of the counted objects themselves), swapping, resetting, unifying and destroying handles, for every object [o] ever created:
     the reference count equals the number of handle variables pointing to the object ... *)
 Theorem C12_count_is_handles : forall nodel n ops o c,
   let s := run nodel (init n) ops in
@@ -33,15 +34,17 @@ Proof. exact default_destroyed_iff_no_handle. Qed.
 Print Assumptions C12_default_destroyed_iff_no_handle.
 
 (** ... it runs in exactly the step in which that number drops to zero (objects stay in the heap list, payloads
-    never change, an object without handles never gets one back) ... *)
+    never change; the only way back from zero handles is the adoption of the raw pointer of an object that a
+    no-delete handle left alive; a destroyed object never gets a handle again) ... *)
 Theorem C12_destroy_at_the_drop : forall nodel n ops op o c,
   let s := run nodel (init n) ops in
   let s' := fst (step nodel s op) in
   nth_error (cells s) o = Some c ->
   exists c', nth_error (cells s') o = Some c' /\
-    dcount c' + orph c' = dcount c + orph c + (if (0 <? handles s o) && (handles s' o =? 0) then 1 else 0) /\
-    dcount c <= dcount c' /\ orph c <= orph c' /\
-    (handles s o = 0 -> handles s' o = 0) /\ val c' = val c.
+    dcount c' + orph c' + (if (handles s o =? 0) && (0 <? handles s' o) then 1 else 0)
+      = dcount c + orph c + (if (0 <? handles s o) && (handles s' o =? 0) then 1 else 0) /\
+    dcount c <= dcount c' /\
+    (dcount c = 1 -> handles s' o = 0) /\ val c' = val c.
 Proof. exact destroy_at_the_drop. Qed.
 Print Assumptions C12_destroy_at_the_drop.
 
@@ -84,6 +87,10 @@ Theorem C12_unify_spec : forall nodel n ops v o c,
                 rc c' = 1 /\ dcount c' = 0 /\ val c' = val c).
 Proof. exact unify_spec. Qed.
 Print Assumptions C12_unify_spec.
+
+Theorem C12_unify_empty : forall nodel s v, ptr_of s v = None -> unify nodel s v = s.
+Proof. intros nodel s v H. unfold unify. now rewrite H. Qed.
+Print Assumptions C12_unify_empty.
 
 (** A release through a no-delete handle never destroys: [dcount] is unchanged by it. *)
 Theorem C12_nodelete_release_never_destroys : forall s p o c c',
